@@ -302,6 +302,11 @@ let handle (line : string) : string =
        | "S" -> out (sorted_vocab_ids mid_pivot ws qs)
        | "P" -> (match probing_vocab_ids (nat_of_int (int_of_string vb)) ws qs with None -> "table-full" | Some l -> out l)
        | _ -> "?")
+  | "TSZ" :: a :: b :: c :: [] ->
+      (* the Size() functions of coq/C04/TrieSize.v:  TSZ <array 0|1> <pointer_bhiksha_bits> <counts,>  ->  "<SortedVocabulary::Size> <TrieSearch::Size>" *)
+      let counts = List.map (fun x -> z_of_hex (Printf.sprintf "%x" (int_of_string x))) (String.split_on_char ',' c) in
+      let dec z = string_of_int (int_of_string ("0x" ^ hex_of_z z)) in
+      dec (sorted_vocab_size (List.hd counts)) ^ " " ^ dec (trie_size (a = "1") (z_of_int (int_of_string b)) counts)
   | "DUMP" :: kd :: k :: [] ->
       (match (if kd = "P" then !tp else if kd = "R" then !tr else !tt) with
        | LoadError _ -> "not-loaded"
